@@ -30,7 +30,9 @@ let () = each_line (fun line ->
       (String.concat "," (List.map name (take shown sched)))
       (String.concat "|" (List.map (fun e -> String.concat "" (List.map name e)) ens))
       (String.concat ";" got) (if fin then 1 else 0) (String.concat "" (List.map name (enabled s)))
-  | [("CHAIN" | "CHAINS") as ckind; blocks; per; stages; n; seed] ->
+  | [("CHAIN" | "CHAINS" | "CHAINF" | "CHAINFS") as ckind0; blocks; per; stages; n; seed] ->
+    let fill_first = ckind0 = "CHAINF" || ckind0 = "CHAINFS" in
+    let ckind = if ckind0 = "CHAINFS" then "CHAINS" else if ckind0 = "CHAINF" then "CHAIN" else ckind0 in
     (* the chain model under a seed-driven schedule: source + stage workers + sink + recycler *)
     let b = int_of_string blocks and per = int_of_string per and n = int_of_string n in
     let rec blocks_of i acc cur k = if i > n then List.rev (if cur = [] then acc else List.rev cur :: acc)
@@ -54,6 +56,11 @@ let () = each_line (fun line ->
     let st = ref (int_of_string seed land 0x3fffffff) in
     let rnd k = st := (!st * 1103515245 + 12345) land 0x3fffffff; (!st lsr 8) mod k in
     let c = ref (chain_init (nat_of_int b) payloads fs) in
+    (* fill, then drain: only the source runs until it has finished or cannot step *)
+    let src_state = if not fill_first then "-" else begin
+        let go = ref true in
+        while !go do (match chain_step (nat_of_int b) !c TSrc with Some c' -> c := c' | None -> go := false) done;
+        if !c.sphs = SDone then "done" else "parked" end in
     let status = ref "" in
     let fuel = ref (100000 + 40 * (n + 2) * (nw + 2)) in
     while !status = "" do
@@ -71,8 +78,9 @@ let () = each_line (fun line ->
     let h = ref 0x14650FB0739D0383L in   (* same multiplicative hash as the C++ driver, 64 bit *)
     List.iter (fun v -> h := Int64.mul (Int64.logxor !h (Int64.of_int v)) 0x100000001b3L) out;
     let rec take k l = if k = 0 then [] else match l with [] -> [] | x :: r -> x :: take (k - 1) r in
-    Printf.sprintf "%s count=%d hash=%Lx head=%s" !status (List.length out) !h
-      (if out = [] then "-" else String.concat "," (List.map string_of_int (take 8 out)))
+    Printf.sprintf "%s count=%d hash=%Lx head=%s src=%s caps=%s" !status (List.length out) !h
+      (if out = [] then "-" else String.concat "," (List.map string_of_int (take 8 out))) src_state
+      (String.concat "," (List.init (nw + 1) (fun _ -> string_of_int b)))    (* every queue of the model has capacity block_count *)
   | ["POOL"; workers; queue; n; seed] ->
     let w = int_of_string workers and cap = int_of_string queue and n = int_of_string n in
     let st = ref (int_of_string seed land 0x3fffffff) in
@@ -95,6 +103,29 @@ let () = each_line (fun line ->
     done;
     Printf.sprintf "%s handled=%d dup=%d miss=%d stray=%d" !status (List.length h) !dup !miss
       (List.length (List.filter (fun x -> x < 0 || x >= n) h))
+  | "SIG" :: k :: script ->
+    (* one thread per c / p<v> action; after every action the started threads run until none can step; i<n> interrupts thread n *)
+    let acts = List.map (fun s -> (s.[0], if String.length s > 1 then int_of_string (String.sub s 1 (String.length s - 1)) else 0)) script in
+    let prod_vals = List.filter_map (fun (a, v) -> if a = 'p' then Some [nat_of_int v] else None) acts in
+    let ncons = List.length (List.filter (fun (a, _) -> a = 'c') acts) in
+    let s = ref (init_st (nat_of_int (int_of_string k)) prod_vals (List.init ncons (fun _ -> nat_of_int 1))) in
+    let started = ref [] and np = ref 0 and nc = ref 0 in
+    let fuel = nat_of_int (12 * (List.length acts + 2)) in
+    let out = Buffer.create 64 in
+    List.iteri (fun a (act, v) ->
+        (match act with
+         | 'c' -> started := !started @ [C (nat_of_int !nc)]; incr nc
+         | 'p' -> started := !started @ [P (nat_of_int !np)]; incr np
+         | _ -> if v < List.length !started then (match interrupt !s (List.nth !started v) with Some s' -> s := s' | None -> failwith "interrupt"));
+        (match quiesce fuel !started !s with Some s' -> s := s' | None -> failwith "out-of-fuel");
+        let fin t = match t with
+          | P i -> (match List.nth !s.prods (int_of_nat i) with (pc, todo) -> pc = O && todo = [])
+          | C j -> (match List.nth !s.cons (int_of_nat j) with (pc, n) -> pc = O && n = O) in
+        let fp = List.length (List.filter (fun t -> match t with P _ -> fin t | _ -> false) !started)
+        and fc = List.length (List.filter (fun t -> match t with C _ -> fin t | _ -> false) !started) in
+        let vals = List.sort compare (List.concat (List.map (fun t -> match t with C j -> List.map int_of_nat (returned_by j !s) | _ -> []) !started)) in
+        Buffer.add_string out (Printf.sprintf "%sP%dC%d:%s" (if a = 0 then "" else "|") fp fc (String.concat "," (List.map string_of_int vals)))) acts;
+    "ok " ^ Buffer.contents out
   | ["POOLF"; workers; queue; n; fail_at; seed] ->
     (* handlers that throw: the model with the failure oracle; the run ends aborted or finished, never with a dropped request *)
     let w = int_of_string workers and cap = int_of_string queue and n = int_of_string n and fa = int_of_string fail_at in
